@@ -168,6 +168,12 @@ func (m *c12Model) check(r *Run, c *bridgeChecks, s *Step, o *Outcome) []Violati
 }
 
 func byzKind(t *Tx) string {
+	if t.A.Has("wrapby") {
+		return "foreign-wrap"
+	}
+	if t.A.Has("foreigndirect") {
+		return "foreign-direct"
+	}
 	for _, k := range []string{"signkey", "gid", "prefix", "extaddr", "sigfault"} {
 		if t.A.Has(k) {
 			if k == "sigfault" {
